@@ -623,10 +623,17 @@ fn handle_run_request(
                 Err(CommandError::Action(EvalAction::Skip)) => {
                     let stack_frame = env.stack.0.last_mut().unwrap();
 
-                    stack_frame
-                        .exprs_to_eval
-                        .pop()
-                        .expect("Tried to skip an expression, but none in this frame.");
+                    if stack_frame.exprs_to_eval.pop().is_none() {
+                        return Response {
+                            kind: ResponseKind::RunCommand {
+                                message: "Nothing to skip: no expression is pending in this stack frame."
+                                    .to_owned(),
+                                stack_frame_name: Some(env.top_frame_name()),
+                            },
+                            position: None,
+                            id,
+                        };
+                    }
 
                     eval_to_response(env, session)
                 }
